@@ -82,7 +82,8 @@ def rule_pure_freeze(ctx, R, NR=None):
             if st["k"] != "assign" or st.get("exp"):
                 continue
             rv = st["rv"]
-            if rv["k"] == "rawptr":
+            if rv["k"] == "rawptr" and rv.get("kind") != "FakeForPtrMetadata":
+                # (FakeForPtrMetadata is the compiler's own length read for a bounds check of `slice_ref[i]`, not a user pointer)
                 rawsites.append((b, bi, si))
             if rv["k"] == "cast" and (rv["kind"].startswith("Transmute") or "Expose" in rv["kind"] or "ExposedProvenance" in rv["kind"]):
                 transm.append((b, bi, si, rv["kind"]))
